@@ -11,7 +11,7 @@ package api
 // body limit is inside. Authentication / signature verification come after it, then user middlewares, then the
 // handler; the result is registered under the route's method and path.
 //@ func (*engine).bindRoute
-//@   prop C02, C04
+//@   prop C02, C03, C04
 //@   opaque getLogHandler, getShedder, checkedTimeout, checkedMaxBytes, appendAuthHandler, convertMiddleware
 //@   opaque New, TracingHandler, PrometheusHandler, MaxConns, BreakerHandler, SheddingHandler, TimeoutHandler, MetricHandler, MaxBytesHandler
 //@   requires ng != nil
@@ -59,6 +59,11 @@ package api
 //@   loop 1 invariant -1 <= rangeindex
 //@   ensures [strict-without-keys-is-a-config-error] signature.enabled && len(signature.PrivateKeys) == 0 && signature.Strict ==> result1 == ErrSignatureConfig && result0 == nil
 //@   ensures [disabled-or-lenient-without-keys-is-identity] !signature.enabled || len(signature.PrivateKeys) == 0 && !signature.Strict ==> result1 == nil && calls(NewRsaDecryptor) == 0
+// each route group gets a decryptor table of its own, holding exactly the keys configured for THAT group (a key
+// configured only for another group must not open this one)
+//@   loop 1 iteration-ensures [own-key-registered] calls(codec.NewRsaDecryptor) == 1 && arg(codec.NewRsaDecryptor, 0) == at_head(signature.PrivateKeys[rangeindex + 1]).KeyFile && ret(codec.NewRsaDecryptor, 1) == nil && has(decryptors, at_head(signature.PrivateKeys[rangeindex + 1]).Fingerprint) && decryptors[at_head(signature.PrivateKeys[rangeindex + 1]).Fingerprint] == ret(codec.NewRsaDecryptor, 0)
+//@   ensures [table-made-for-this-group] signature.enabled && len(signature.PrivateKeys) > 0 && result1 == nil ==> fresh(*captured(result0, map[string]codec.RsaDecryptor))
+//@   ensures [key-file-error] signature.enabled && len(signature.PrivateKeys) > 0 && result1 != nil ==> result0 == nil && result1 == ret(codec.NewRsaDecryptor, 1)
 //@ func (*engine).signatureVerifier$3
 //@   prop C04
 //@   opaque ContentSecurityHandler
@@ -68,3 +73,13 @@ package api
 //@   prop C02
 //@   requires svr != nil && ng != nil
 //@   ensures [no-timeout-untouched] ng.config.Timeout <= 0 ==> svr.ReadTimeout == old(svr.ReadTimeout) && svr.WriteTimeout == old(svr.WriteTimeout)
+
+// Every route of a group is bound with ITS OWN method, path and handler (the route value of this iteration, not a
+// variable shared by all iterations), under the group's verifier; the first binding error stops.
+//@ func (*engine).bindFeaturedRoutes
+//@   prop C03, C04
+//@   opaque signatureVerifier, bindRoute
+//@   requires ng != nil
+//@   loop 1 invariant -1 <= rangeindex && rangeindex < len(fr.routes) || len(fr.routes) == 0
+//@   loop 1 iteration-ensures [route-bound-by-value] calls(ng.bindRoute) == 1 && arg(ng.bindRoute, 4) == at_head(fr.routes[rangeindex + 1]) && arg(ng.bindRoute, 5) == verifier && arg(ng.bindRoute, 2) == router && ret(bindRoute) == nil
+//@   ensures [verifier-error] ret(signatureVerifier, 1) != nil ==> result == ret(signatureVerifier, 1) && calls(bindRoute) == 0
